@@ -60,7 +60,10 @@ def exhaustive_builder(g, E, do, depth):
     first = A[g.profile["first"]]
     seqs = itertools.product(A, repeat=depth - 1) if depth > 1 else [()]
     k = 0
-    for rest in seqs:
+    part, nparts = g.profile.get("part", 0), g.profile.get("nparts", 1)
+    for n, rest in enumerate(seqs):
+        if n % nparts != part:
+            continue
         # only prefixes that start by creating something are interesting
         do({"cmd": "reset"})
         do({"cmd": "dump"})
@@ -85,8 +88,9 @@ def run(ctx):
     A = alphabet()
     creators = [i for i, a in enumerate(A) if a["op"] in ("create", "createKeyPair", "register")]
     # exhaustive part: sequences starting with a creating letter (others act on an empty store)
-    args = [(i, depth, {"first": i, "builtin_policies_only": True}, True, "props.c04.exhaustive_builder")
-            for i in creators]
+    nparts = 3
+    args = [(i * nparts + p, depth, {"first": i, "part": p, "nparts": nparts, "builtin_policies_only": True}, True,
+             "props.c04.exhaustive_builder") for i in creators for p in range(nparts)]
     with multiprocessing.get_context("fork").Pool(min(16, len(args))) as pool:
         exh = pool.map(engine_check.gen_history, args)
     n_seq = len(creators) * (len(A) ** (depth - 1))
